@@ -305,3 +305,50 @@ def uncommitted(cx):
             require(cx, c, cx.site_key(c, "admitted"), "the leader appends proposals only after the uncommitted-size admission succeeded", admitted, kill=False)
     bl = [s for s in cx.prog.writes.get("UncommittedState.uncommitted_size", []) if "stmt" in s.data and write_value(cx, s) == ("int", 0) and any(x.fn is s.fn for x in cx.prog.writes.get(STATE, []))]
     cx.check(bool(bl), "leader-reset", "becoming leader zeroes the uncommitted size")
+
+
+@obligation("FLOW.transitions", ["C10", "C13", "C15"], floor=5, kind="effect shape (object-flow fragments)",
+            why="a progress that keeps a stale Snapshot/paused state across a reset or transition is never sent anything again")
+def transitions(cx):
+    from ..templates import fragment
+    from .vote import reset_fns
+    from ..an import strip_generics as sg
+    PSa = "raft::tracker::state::ProgressState"
+    # the default state is Probe
+    df = [f for k, f in cx.facts.fns.items() if "ProgressState as core::default::Default>::default" in k]
+    cx.need(df, "<ProgressState as Default>::default")
+    rets = cx.pg(df[0]).returns()
+    cx.check(len(rets) == 1 and rets[0][1] == ("enum", PSa, "Probe"), "default", "ProgressState::default() is Probe")
+
+    def is_probe(v):
+        return v == ("enum", PSa, "Probe") or (v[0] == "call" and "ProgressState as core::default::Default>::default" in v[1])
+    spec = {
+        "Progress::become_probe": lambda st: is_probe(st.get("state", ("?",))),
+        "Progress::become_replicate": lambda st: st.get("state") == ("enum", PSa, "Replicate"),
+        "Progress::become_snapshot": lambda st: st.get("state") == ("enum", PSa, "Snapshot") and st.get("pending_snapshot", ("?",))[0] == "param",
+    }
+    for name, pred in spec.items():
+        f = cx.fn(name)
+        fr = fragment(cx.prog, f, 1, "Progress") or []
+        ok = bool(fr) and all(pred(st) and st.get("paused") == ("bool", False) for _, st in fr)
+        cx.check(ok, name, "%s establishes its state and clears `paused` on every path" % name, shape=[{k: show(v) for k, v in st.items() if k in ("state", "paused", "pending_snapshot", "next_idx")} for _, st in fr])
+        cx.check("reset" in {sp.split("::")[-1] for sp in cx.prog.reachable_fns([sg(f.key)]) if "Inflights" in sp}, name + ":window", "%s empties the inflight window" % name)
+    # the per-peer reset used on every role change
+    n = 0
+    for k, (rf, p) in reset_fns(cx).items():
+        for sp, s in cx.prog.calls_out[rf.key]:
+            if s.kind != "call" or sp not in cx.prog.short:
+                continue
+            f = cx.facts.fns[cx.prog.short[sp][0]]
+            if f.impl_adt != "raft::tracker::progress::Progress":
+                continue
+            n += 1
+            fr = fragment(cx.prog, f, 1, "Progress") or []
+            ok = bool(fr) and all(is_probe(st.get("state", ("?",))) and st.get("paused") == ("bool", False) and st.get("pending_snapshot") == ("int", 0) and st.get("matched") == ("int", 0) and st.get("next_idx", ("?",))[0] == "param" for _, st in fr)
+            cx.check(ok, "reset:" + fn_name(f), "on every role change each progress restarts in Probe, unpaused, with no pending snapshot, matched = 0 and the given next index",
+                     s, shape=[{k2: show(v) for k2, v in st.items() if k2 != "*"} for _, st in fr])
+            cx.check(any("Inflights::reset" in x for x in cx.prog.reachable_fns([sp])), "reset:window:" + fn_name(f), "and with an empty inflight window")
+            a = call_args(cx, s)
+            ok = match(("bin", "Add", alt(call("~RaftLog::last_index", ANY), ("int", 1)), alt(call("~RaftLog::last_index", ANY), ("int", 1))), a[1]) is not None
+            cx.check(ok, "reset:next:" + fn_name(f), "the restart index is last_index + 1 (found %s)" % show(a[1]), s)
+    cx.check(n >= 1, "floor:reset", "the role-change reset touches every progress")
